@@ -941,14 +941,32 @@ def invariant_zero(ctx):
     res.saw(f)
     bad = []
     for n in ast.walk(f.node):
-        if isinstance(n, ast.If) and isinstance(n.test, ast.Compare) and \
-                isinstance(n.test.ops[0], ast.Eq) and \
-                unparse(n.test.comparators[0]) in ('0', '0.0'):
-            for st in n.body:
+        if not isinstance(n, ast.If):
+            continue
+        exact = isinstance(n.test, ast.Compare) and len(n.test.ops) == 1 and \
+            isinstance(n.test.ops[0], ast.Eq) and \
+            unparse(n.test.comparators[0]) in ('0', '0.0')
+        for arm in (n.body, n.orelse):
+            for st in arm:
                 if isinstance(st, ast.Assign) and \
                         unparse(st.targets[0]).startswith('self._B[') and \
                         unparse(st.value) in ('0', '0.0'):
-                    bad.append(st)
+                    if exact and arm is n.body:
+                        bad.append(st)
+                    else:
+                        # any wider condition (a tolerance band, <=, isclose)
+                        # zeroes the coefficient of lenses whose invariant is
+                        # small but not zero: small apertures and fields are
+                        # exactly where the third-order terms are accurate
+                        res.fail(ctx.finding(
+                            'INVARIANT-ZERO', f, n,
+                            f'the coefficient B is set to 0 under the '
+                            f'condition `{unparse(n.test)[:80]}`, which is '
+                            f'not the exact test for a zero invariant: a '
+                            f'lens with a small aperture or field (2 n Inv '
+                            f'inside the band) loses TSC, SC, CC and TAC '
+                            f'although its third-order terms are finite',
+                            construct='B zeroed for a non-zero invariant'))
     inv_in_hp = any(isinstance(st, ast.Assign) and
                     unparse(st.targets[0]) == 'self._hp' and
                     'self._inv' in unparse(st.value)
